@@ -351,7 +351,7 @@ class Check(common.Check):
         if res is None:
             self.notes.append('opcode probe failed: ' + err[-300:])
             return []
-        out = self.class_table_static() + self.pyop_static() + self.rate_sweep_static()
+        out = self.class_table_static() + self.pyop_static() + self.rate_sweep_static() + self.mix_static()
         self._opcode_probe = len(res)
         for arity, name, got in res:
             want = (opcodes_ref.UNARY if arity == 'unary' else opcodes_ref.BINARY).index(name)
@@ -375,6 +375,17 @@ class Check(common.Check):
                 out.append({'what': f'{name}.{ctor}(...) is emitted with rate {rates}, created at rate {want}',
                             'signature': f'c01:created-rate:{name}', 'case': {'class': name, 'ctor': ctor}})
         return out
+
+    def mix_static(self):
+        """fused sum units built by the mixing pseudo unit: Mix.new of 1..40 sources is the sum of all of
+        them, each source once; infinite constants are legitimate operands"""
+        res, err = common.run_impl('c01', 'mix_probe', {'mode': 'nrt'}, timeout=600)
+        if res is None:
+            self.notes.append('mix probe failed: ' + err[-300:])
+            return []
+        self._mix_probe = len(res)
+        return [{'what': (f'Mix.new of {n} sources: {st}' if isinstance(n, int) else f'infinite constant operand ({n}): {st}'),
+                 'signature': f'c01:mix:{n}', 'case': {'mix': n}} for n, st in res if st != 'ok']
 
     def pyop_static(self):
         """Python's operator protocol (unary, binary, reflected, builtins round/abs/floor/ceil/trunc) on unit
@@ -481,7 +492,7 @@ class Check(common.Check):
         h['validator_skipped_polynomials_too_large'] = sum(1 for o in outs if str(o.get('validator_real', '')).startswith('SKIP'))
         # sizes of the static probes of this run (operators, class table, operator protocol forms, class sweeps ...)
         for k in ('_opcode_probe', '_class_probe', '_pyop_probe', '_rate_sweep', '_desc_probe', '_class_sweep',
-                  '_srfirst_probe', '_invalid_sweep'):
+                  '_srfirst_probe', '_invalid_sweep', '_mix_probe'):
             if hasattr(self, k):
                 h['static' + k] = getattr(self, k)
         h['demand_blocks'] = sum(1 for c in cases if any(e.get('cls') == 'Duty' for e in c['events']))
